@@ -11,6 +11,10 @@ use crate::{
     parser::inline::tokenize_inline_content,
 };
 
+/// Each group of choices followed by more content adds two levels of nesting to
+/// the compiled story; the runtime loads 128.
+const MAX_CHOICE_GROUPS_IN_A_WEAVE: usize = 60;
+
 include!("context.rs");
 include!("structure.rs");
 include!("diverts.rs");
